@@ -57,3 +57,20 @@ Definition persistb (old new : store) : bool :=
    arrived while their parent's insertion had failed are legitimately stored as orphans) *)
 Definition same_ids (a b : store) : bool :=
   forallb (fun r => memN (id r) (ids b)) a && forallb (fun r => memN (id r) (ids a)) b.
+
+(* ---- crash at a TRANSACTION boundary below the repository layer: the first k commits succeed, every later
+   one is refused.  UpdateState with an empty list returns before opening a transaction (no commit). ---- *)
+Definition costs_commit (w : write) : bool := match w with WUpdate [] _ => false | _ => true end.
+Fixpoint exec_commits (s : store) (ws : list write) (k : nat) : store :=
+  match ws with
+  | [] => s
+  | w :: ws' =>
+    if costs_commit w then
+      match k with
+      | Datatypes.O => s
+      | Datatypes.S k' => exec_commits (apply_write s w) ws' k'
+      end
+    else exec_commits (apply_write s w) ws' k
+  end.
+Definition commit_crash_state (f : list N) (s : store) (h : src) (k : nat) : store :=
+  exec_commits s (snd (plan f s h)) k.
